@@ -112,6 +112,8 @@ Row(op, n, k, s, v) ==
       [] op = "pushints"   -> R(8, "any", 0, k, 1)
       [] op = "pushbytess" -> R(8, "any", 0, k, 1)
       [] op = "match"      -> R(8, "any", k + 1, 0, 1)
+      \* `replace s` is the assembler's spelling of replace2 s, bare `replace` of replace3 (k = immediates given)
+      [] op = "replace"    -> R(7, "any", IF k = 1 THEN 2 ELSE 3, 1, 1)
       [] op = "base64_decode" -> [R(7, "any", 1, 1, 1) EXCEPT !.conf = "unsure"]   \* 1 + 1 per 16 bytes
       [] op = "json_ref"      -> [R(7, "any", 2, 1, 25) EXCEPT !.conf = "unsure"]  \* 25 + 2 per 7 bytes
       [] op \in DOMAIN Operators -> Operators[op]
@@ -119,10 +121,10 @@ Row(op, n, k, s, v) ==
 
 Known(op) == op \in DOMAIN Operators \/ op \in DOMAIN Fixed
              \/ op \in { "sha256", "keccak256", "sha512_256", "ecdsa_verify", "ecdsa_pk_decompress", "dig", "cover",
-                         "uncover", "bury", "popn", "dupn", "pushints", "pushbytess", "match", "base64_decode", "json_ref" }
+                         "uncover", "bury", "popn", "dupn", "pushints", "pushbytess", "match", "base64_decode", "json_ref", "replace" }
 AllOps == DOMAIN Operators \cup DOMAIN Fixed
           \cup { "sha256", "keccak256", "sha512_256", "ecdsa_verify", "ecdsa_pk_decompress", "dig", "cover",
-                 "uncover", "bury", "popn", "dupn", "pushints", "pushbytess", "match", "base64_decode", "json_ref" }
+                 "uncover", "bury", "popn", "dupn", "pushints", "pushbytess", "match", "base64_decode", "json_ref", "replace" }
 
 (* ---- fields: introduction version (1 when absent from the map) ---- *)
 TxnFieldVer ==
